@@ -10,7 +10,8 @@ def load(p):
                 r = json.loads(l); r["mutant"] = r["mutant"].split("/")[-1]; out[r["mutant"]] = r
     return out
 base = load(os.path.join(ROOT, "seeded", "RESULTS.baseline.jsonl"))
-base.update(load(os.path.join(ROOT, "seeded", "RESULTS.baseline.round2.jsonl")))
+for extra in ("RESULTS.baseline.round2.jsonl", "RESULTS.baseline.round2b.jsonl", "RESULTS.baseline.round3.jsonl"):
+    base.update(load(os.path.join(ROOT, "seeded", extra)))
 final = load(os.path.join(ROOT, "seeded", "RESULTS.jsonl"))
 for d in sorted(os.listdir(os.path.join(ROOT, "seeded"))):
     mp = os.path.join(ROOT, "seeded", d, "meta.json")
